@@ -211,7 +211,9 @@ func (w *Walk) MustReject() bool {
 	return false
 }
 
-func walkName(b []byte, off int) Walk {
+// hdr is the size of a leading non-name region (12 for a message, 0 for a bare buffer):
+// a pointer into it is followed but is not a 'prior occurrence of a name'.
+func walkName(b []byte, off, hdr int) Walk {
 	w := Walk{Strict: true, WireLen: 1}
 	if off < 0 || off >= len(b) {
 		w.Err, w.Strict = "truncated", false
@@ -279,8 +281,8 @@ func walkName(b []byte, off int) Walk {
 			if t >= seg {
 				w.InBand, w.Strict = true, false
 			}
-			if t < 12 {
-				w.Header = true
+			if t < hdr {
+				w.Header, w.Strict = true, false
 			}
 			seg, cur = t, t
 		default: // 0x40, 0x80: reserved label types
@@ -309,7 +311,7 @@ func Unpack(b []byte) (*RMsg, []Walk, error) {
 	off := 12
 	var walks []Walk
 	name := func(where string) (Name, error) {
-		w := walkName(b, off)
+		w := walkName(b, off, 12)
 		walks = append(walks, w)
 		if w.Err != "" {
 			return nil, &perr{w.Err, fmt.Sprintf("%s name at %d", where, off)}
@@ -317,6 +319,9 @@ func Unpack(b []byte) (*RMsg, []Walk, error) {
 		if !w.Strict {
 			if w.WireLen > 255 {
 				return nil, &perr{"name-too-long", fmt.Sprintf("%s name at %d", where, off)}
+			}
+			if w.Header && !w.InBand {
+				return nil, &perr{"ptr-into-header", fmt.Sprintf("%s name at %d", where, off)}
 			}
 			return nil, &perr{"ptr-not-prior", fmt.Sprintf("%s name at %d", where, off)}
 		}
